@@ -661,6 +661,10 @@ def model_cases(run, rnd):
         sp["refs"] = [([f"child{j}", "sp ace/c", "a&b", "\u00e9/deep/<x>", "Clips", "Clips_proxy"][j % 6] + (str(j) if j >= 6 else ""), f"payload{j}".encode()) for j in range(n)]
         cid = f"model/refs/{n}"
         yield cid, ("refs", n), (lambda sp=sp, cid=cid: model_case(run, cid, sp))
+    # reference paths begin with the nested folder's name, which may begin or end with a blank
+    sp = base_spec()
+    sp["refs"] = [(" lead blank/c", b"payload-lead"), ("trail blank /c", b"payload-trail"), (" both /d ", b"payload-both")]
+    yield "model/refs/blanks", ("refs", "blanks"), (lambda sp=sp: model_case(run, "model/refs/blanks", sp))
     for p in ["in-place", "transfer", "flatten"]:
         sp = base_spec()
         sp["process"] = p
@@ -1155,6 +1159,9 @@ def world_cases(run, rnd):
     trees["special"] = SPECIAL_TREE
     sdirs = sorted({k.split("/")[0] for k in SPECIAL_TREE if "/" in k and not k.endswith("/")})
     nested["special"] = [[], [sdirs[0]], [sdirs[1], sdirs[-1]]]
+    # names that begin / end with a blank, also as roots of nested histories (reference paths begin with the folder name)
+    trees["blanks"] = {" Dailies/a.mov": "a", " Dailies/ in/b.mov": "b", "Sound /c.wav": "c", " lead.txt": "l", "trail.txt ": "t", "plain/p.bin": "p"}
+    nested["blanks"] = [[], [" Dailies"], ["Sound ", " Dailies"], [" Dailies/ in", "plain"]]
     trees["links"] = {"real/a.bin": "aaaa", "real/b c.bin": "b", "l&nk.bin": ("link", "real/a.bin"), "d/up.bin": ("link", "../real/b c.bin")}
     nested["links"] = [[], ["real"]]
     idx = 0
